@@ -124,6 +124,11 @@ def property_texts(tier: str) -> List[str]:
         for unit in ('s', 'ms'):
             out.append(f'globally: no a within {mt!r} {unit}')
             out.append(f'after a as A until b {{x > @A.x}}: c causes (d or e {{ y in [0 to 10]! }}) within {mt!r}{unit}')
+    # wide disjunctions (4 and 5 alternatives) in every event position
+    wide4, wide5 = '(w0 or w1 {x > 1} or w2 as W or w3)', '(v0 or v1 or v2 {p} or v3 or v4 {y < 2})'
+    for w in (wide4, wide5):
+        out += [f'globally: no {w}', f'globally: some {w} within 2 s', f'globally: {w} causes b', f'globally: a causes {w}', f'globally: b requires {w}', f'globally: {w} forbids {wide4}',
+                f'after {w}: no b', f'until {w}: some b', f'after a until {w}: {wide5} requires {w}']
     return families.uniq(out)
 
 
@@ -183,6 +188,17 @@ def main() -> int:
     especs += [('lit', 1e400), ('lit', 1e-320), ('lit', 12345678901234567890), ('const', 'PI'), ('const', 'INF'), ('const', 'NAN'), ('const', 'E'),
                ('bin', '<', ('const', 'NAN'), ('f', 'x')), ('str', 'a b'), ('str', ''), ('str', 'q\\"q'), ('str', 'back\\\\slash'), ('bin', '=', ('f', 's'), ('str', 'not and or')),
                ('bin', '<', ('f', 'notify'), ('f', 'android')), ('bin', '<', ('fa', ('var', 'inner'), 'format'), ('f', 'Ex'))]
+    # set members / range bounds / quantifier domains that are themselves compound (boolean members need their own parentheses)
+    P_, Q_, X_, Y_ = ('f', 'p'), ('f', 'q'), ('f', 'x'), ('f', 'y')
+    members = [('bin', 'and', P_, Q_), ('bin', 'or', P_, ('not', Q_)), ('bin', 'implies', P_, Q_), ('bin', 'iff', P_, Q_), ('not', P_), ('bin', '<', X_, Y_), ('bin', '=', X_, ('lit', 1)),
+               ('bin', 'in', X_, ('set', ('lit', 1))), ('q', 'forall', 'i', ('f', 'xs'), ('bin', '>', ('var', 'i'), ('lit', 0))), ('bin', '+', X_, ('lit', 1)), ('neg', X_),
+               ('bin', '**', X_, ('bin', '-', Y_, ('lit', 2))), ('call', 'abs', ('bin', '-', X_, Y_))]
+    for m_ in members:
+        especs += [('bin', 'in', ('f', 'flag'), ('set', m_, ('lit', False))), ('bin', 'in', ('f', 'flag'), ('set', ('lit', True), m_, ('f', 'r'))),
+                   ('q', 'exists', 'v', ('set', m_, ('f', 'r')), ('bin', '=', ('var', 'v'), ('f', 'r'))), ('bin', '=', ('call', 'len', ('set', m_)), ('lit', 1))]
+    for m_ in members[-4:]:
+        especs += [('bin', 'in', ('f', 'z'), ('range', m_, ('bin', '*', Y_, ('lit', 2)), False, True)), ('bin', 'in', ('f', 'z'), ('range', ('lit', 0), m_, True, False)),
+                   ('q', 'forall', 'v', ('range', m_, m_, False, False), ('bin', '<', ('var', 'v'), ('idx', ('f', 'xs'), m_)))]
     especs = families.uniq(especs)
     ptexts = property_texts(ck.tier)
     stexts = ['\n'.join(ptexts[i:i + n]) for i, n in ((0, 1), (3, 2), (10, 3), (40, 5))] + [f'# id: p{i}\n# title: "t"\n{t}' for i, t in enumerate(ptexts[::97])]
@@ -218,7 +234,7 @@ def main() -> int:
     ck.sample({'expression_text': gen.render(especs[len(especs) // 3])})
     ck.bound('FP', 'all finite doubles >= 0 as max_time (bit-precise); repr/float round trip of CPython assumed')
     ck.bound('print-parse', f'{accepted} accepted texts: expression families (every node kind and child slot, every function/argument shape, depth <= 5 random), the same as predicates, '
-             f'{len(ptexts)} properties (4 scopes x 5 patterns x widths 1..3 x decorations x 14 time bounds incl. 1e-05, 2.5e+20, ms and s units), {len(stexts)} specifications')
+             f'{len(ptexts)} properties (4 scopes x 5 patterns x widths 1..3 (and 4-/5-way disjunctions in every event position) x decorations x 14 time bounds incl. 1e-05, 2.5e+20, ms and s units), {len(stexts)} specifications')
     ck.coverage['evaluations'] = accepted
     ck.coverage['distinct_nontrivial'] = len(printed)
     ck.coverage['rule'] = 'one evaluation = one accepted text through parse, print, parse, print; distinct = distinct printed form'
